@@ -56,6 +56,7 @@ def check_item(it):
         r = out['goals'][str(m)]
         if 'error' in r: refused += 1; continue
         cf = judge.from_srepr(r['closed_form'])
+        if any(str(x).startswith('_prob') for x in cf.free_symbols): refused += 1; continue    # condition abstracted as a documented symbolic probability
         for n in range(nreach + 1):
             got = judge.at_n(cf, n)
             ok, h = judge.is_zero(got - spec[m][n]); how.add(h)
